@@ -5,3 +5,4 @@
 (assert (forall ((b Int) (n Int)) (! (= (fnum (fname b n)) n) :pattern ((fname b n)))))
 ; the empty set of file positions
 (define-fun nopos () (Array Int Bool) ((as const (Array Int Bool)) false))
+(declare-const nosize (Array Int Int))
